@@ -680,6 +680,23 @@ class World:
         if isinstance(v, SStr):
             return IterSpec(z3.Length(v.t), lambda k: SStr(
                 z3.SubString(v.t, k if z3.is_expr(k) else z3.IntVal(k), 1)))
+        if isinstance(v, SVal) and it is not None and \
+                getattr(it, 'path', None) is not None:
+            # an opaque value KNOWN to be an iterable (the path says so): a
+            # finite uninterpreted sequence; walking it is an event
+            from . import models
+            known = not it.path.feasible(z3.Not(
+                models.isinst_fn('Iterable')(v.t)))
+            if known:
+                n = models.uf('py.iterlen', S.Val, z3.IntSort())(v.t)
+                it.path.assume(n >= 0)
+                arr = models.uf('py.iteritems', S.Val, z3.ArraySort(
+                    z3.IntSort(), S.Val))(v.t)
+                self.trusted_used.add('iteration over an opaque iterable: '
+                                      'a finite uninterpreted sequence')
+                it.calls.append(('iter', (v,), None))
+                q = SSeq(n, arr, TVal, kind='tuple')
+                return IterSpec(q.length, lambda k: q.get(k), source=q)
         raise Unsupported('iteration over %r' % (v,))
 
     # ----------------------------------------------------- loops ----
